@@ -170,7 +170,7 @@ def run(tier):
             for xs in seqs:
                 emit({"kind": "seq", "xs": xs, "p": 0, "a": 0, "n": 0}, xs)
             # seeded longer sequences: constant, alternating, small random, offset
-            for i in range(300 if thorough else 80):
+            for i in range(3000 if thorough else 80):
                 n = rng.choice([7, 8, 9, 16, 33, 100, 250])
                 style = i % 4
                 if style == 0:
@@ -185,7 +185,7 @@ def run(tier):
                 emit({"kind": "seq", "xs": xs, "p": 0, "a": 0, "n": 0}, xs)
             # large offsets (shift invariance): small integer spread around +-3e7 .. +-1e9; a formula that loses the
             # deviations in the magnitude of the samples (sum of squares minus k * mean^2) is off by percents here
-            for i in range(120 if thorough else 40):
+            for i in range(1000 if thorough else 40):
                 n = rng.choice([2, 3, 8, 33, 100, 250])
                 off = rng.choice([30000000, -30000000, 100000000, -100000000, 1000000000, -1000000000])
                 small = [rng.randint(-3, 3) for _ in range(n)]
@@ -196,7 +196,7 @@ def run(tier):
                 nroutes += len(ev["routes"])
                 f.write(json.dumps(ev, separators=(",", ":")) + "\n")
             # structured streams of up to 10^4 samples (closed-form truth)
-            for i in range(40 if thorough else 12):
+            for i in range(200 if thorough else 12):
                 kind = rng.choice(["ramp", "bit"])
                 p = rng.choice([2, 3, 7, 13]) if kind == "ramp" else rng.choice([2, 3, 5, 9])
                 n = rng.choice([1000, 4096, 10000])
